@@ -18,7 +18,6 @@ import (
 	"errors"
 	"fmt"
 	"sort"
-	"sync"
 	"testing"
 
 	"github.com/ethereum/go-ethereum/common"
@@ -358,31 +357,6 @@ func c08SameDB(a, b c08DB) error {
 	return nil
 }
 
-// c08Seen is a concurrent "first time?" set.
-type c08Seen struct {
-	mu [64]sync.Mutex
-	m  [64]map[string]struct{}
-}
-
-func newC08Seen() *c08Seen {
-	s := &c08Seen{}
-	for i := range s.m {
-		s.m[i] = map[string]struct{}{}
-	}
-	return s
-}
-
-func (s *c08Seen) first(k string) bool {
-	i := mc.Hash64(k) & 63
-	s.mu[i].Lock()
-	defer s.mu[i].Unlock()
-	if _, ok := s.m[i][k]; ok {
-		return false
-	}
-	s.m[i][k] = struct{}{}
-	return true
-}
-
 func TestVerif_C08(t *testing.T) {
 	mc.Run(t, "C08", func(r *mc.R) {
 		nkeys := mc.Pick(r, 6, 7)
@@ -429,9 +403,17 @@ func TestVerif_C08(t *testing.T) {
 			queries := append(append([][]byte{}, fam.keys...), fam.absent...)
 			r.Bound(fam.name+".query_keys", len(queries))
 
-			truncSeen := newC08Seen()
+			owner := map[string]int{} // node hash -> first trie index containing it
+			for ti, ref := range refs {
+				for _, n := range ref.nodes {
+					if _, ok := owner[n.hash]; !ok {
+						owner[n.hash] = ti
+					}
+				}
+			}
 			r.Parallel(ntries, func(ti int) {
 				local := map[string]int64{}
+				truncDone := map[string]bool{}
 				dig := c08Digits(ti, nkeys)
 				ds := c08DigStr(dig)
 				if only.Trie != "" && only.Trie != ds {
@@ -618,8 +600,13 @@ func TestVerif_C08(t *testing.T) {
 						n := 0
 						for _, h := range hashes {
 							blob := proof[h]
-							if !r.Replaying() && !truncSeen.first(h) {
-								continue // this node was already truncated at every length at the end of another honest chain
+							if !r.Replaying() {
+								// every distinct genuine node is truncated once: in the first trie (by index) that contains
+								// it, under the first query key whose path visits it
+								if owner[h] != ti || truncDone[h] {
+									continue
+								}
+								truncDone[h] = true
 							}
 							for l := 0; l < len(blob); l++ {
 								n++
@@ -634,9 +621,7 @@ func TestVerif_C08(t *testing.T) {
 								}
 							}
 						}
-						if n > 1 {
-							r.Eval(int64(n) - 1)
-						}
+						r.Eval(int64(n))
 						return nil
 					})
 				}
